@@ -31,12 +31,12 @@ SENS = {  # deviation / plausible bug -> what TLC must report
     "ChunkedTruncatedOk": ("invariant", "Inv_Faithful"), "MapErrTo500": ("invariant", "Inv_Faithful"),
     "ForwardUnstripped": ("invariant", "Inv_Forwarded"), "XffProxyAddr": ("invariant", "Inv_Forwarded"),
     "NoXff": ("invariant", "Inv_Forwarded"), "XffDisplaySuffix": ("invariant", "Inv_Forwarded"),
-    "WriteWithoutDeadline": ("temporal", None), "PerOpTimeout": ("invariant", "Inv_Timely"),
+    "WriteWithoutDeadline": ("temporal", None), "TeCaseSensitive": ("invariant", "Inv_Faithful"), "PerOpTimeout": ("invariant", "Inv_Timely"),
     "HeadersDropped": ("invariant", "Inv_Faithful"), "GiveUpOnEmptyRead": ("invariant", "Inv_Faithful"),
     "BodyTruncatedOk": ("invariant", "Inv_Faithful"),
 }
-SENS_QUICK = ["NoReadTimeout", "CloseDelimitedLost", "UnmodelledStatusIs502", "ChunkedTruncatedOk", "MapErrTo500", "ForwardUnstripped",
-              "XffDisplaySuffix", "WriteWithoutDeadline"]
+SENS_QUICK = ["NoReadTimeout", "CloseDelimitedLost", "UnmodelledStatusIs502", "ChunkedTruncatedOk",
+              "XffDisplaySuffix", "WriteWithoutDeadline", "TeCaseSensitive"]
 LB_SENS_QUICK = ["NoLock", "SelectOnCloneWriteBack", "WrapLate"]
 LB_SENS = {"NoLock": "Inv_Rotation", "IncrementOutsideLock": "Inv_Rotation", "SelectOnCloneWriteBack": "Inv_Rotation",
            "WrapLate": None, "RandomOffByOne": "Inv_InSet"}
@@ -172,7 +172,7 @@ def run(tier, replay):
 
     # ------------------------------------------------------------------ 1 + generation: TLC runs, concurrently
     jobs = {}
-    ex = cf.ThreadPoolExecutor(max_workers=4)
+    ex = cf.ThreadPoolExecutor(max_workers=6)
 
     def tlc(key, module, cfg, **kw):
         jobs[key] = ex.submit(_run_tlc, module, cfg, D, work_id="c09-" + key, **kw)
@@ -191,12 +191,21 @@ def run(tier, replay):
             ("trickle6", "Gen_Proxy_trickle6.cfg", 600, 6),
             ("fwd", "Gen_Proxy_fwd.cfg" if thorough else "Gen_Proxy_fwd_quick.cfg", 450, 3),
             # a target that accepts and never reads x request bodies {2 B, 8 MiB, 32 MiB}: write_all blocks; two timeouts
-            ("noread", "Gen_Proxy_noread.cfg", 450, 3, 3), ("noread1500", "Gen_Proxy_noread.cfg", 1500, 3, 3)]
+            ("noread", "Gen_Proxy_noread.cfg", 450, 3, 3), ("noread1500", "Gen_Proxy_noread.cfg", 1500, 3, 3),
+            # boundary values: first/last status code of each class and codes that are none (0, 99, 600, 1000, 65536);
+            # Content-Length that is no length or larger than anything sent (+1, 2^31-1, 2^32, 2^63-1, 2^64-1)
+            ("bounds", "Gen_Proxy_bounds.cfg", 450, 3, 32),
+            # chunk / body sizes 15, 16, 26, 255, 256 (4096) bytes, hex digits in both cases; "Transfer-Encoding: Chunked"
+            ("sizes", "Gen_Proxy_sizes.cfg" if thorough else "Gen_Proxy_sizes_quick.cfg", 450, 3, 32),
+            # (the header sets of "bounds": empty value, ':' in a value, one name three times in non-sorted order, 36 headers
+            # with one name six times); thorough also with all three framings through proxy_handler
+            # a target that starts to READ the request one tick (800 ms) late x request bodies {2 B, 8 MiB}
+            ("lateread", "Gen_Proxy_lateread.cfg", 2400, 3, 8)]
     # the pause/trickle family again with a timeout long enough that "one more whole timeout" (a per-operation
     # timer re-armed by a late partial response) exceeds timeout + slack: seeded change C09-timeout-armed-once
     gens += [("timing_long", "Gen_Proxy_timing.cfg", 2400, 3)]
     if thorough:
-        gens += [("timing", "Gen_Proxy_timing.cfg", 450, 3), ("codes", "Gen_Proxy_codes.cfg", 450, 3)]
+        gens += [("timing", "Gen_Proxy_timing.cfg", 450, 3), ("codes", "Gen_Proxy_codes.cfg", 450, 3), ("hdrs", "Gen_Proxy_hdrs.cfg", 450, 3)]
     gens = [g if len(g) == 5 else g + (32,) for g in gens]
     for cfg in sorted(set(g[1] for g in gens)):
         tlc("gen_" + cfg, "MC_Proxy.tla", cfg, workers=1, timeout=1500, heap="6g")
@@ -265,6 +274,9 @@ def run(tier, replay):
         next_id += len(lines)
         total = len(lines)
         lines = _thin_handler_timeouts(lines, 64 if thorough else 16)
+        if not thorough and key == "lateread":
+            # quick: the behaviours that end with the upstream's answer, and every 16th of the others
+            lines = [x for i, x in enumerate(lines) if x["exp"]["kind"] == "resp" or (i + ctx.seed) % 16 == 0]
         if key.startswith("noread"):
             # proxy_handler's 5 s: thorough only, and once
             lines = [x for x in lines if x["entry"] == "core" or (thorough and key == "noread")]
@@ -331,12 +343,13 @@ def run(tier, replay):
             raise vlib.ToolError("self-test: the harness accepted a corrupted vector: %s" % p.stdout[-1500:])
 
     # ------------------------------------------------------------------ 3a. byte-offset cuts, validated by TLC
-    nseeds, stall_mod, nbig = (24, 1, 6) if thorough else (9, 3, 3)   # nbig: 30-90 KB bodies, cut at sampled offsets
-    p = _run_harness(proxy, ["cuts", "300", "32", str(stall_mod), str(nseeds), str(nbig)], timeout=2400)  # = cut_args below
+    # nbig: 30-90 KB bodies, cut at sampled offsets; nslow: 2-3 MiB responses delivered in pieces 100 ms apart
+    nseeds, stall_mod, nbig, nslow = (24, 1, 6, 6) if thorough else (9, 3, 3, 2)
+    p = _run_harness(proxy, ["cuts", "300", "32", str(stall_mod), str(nseeds), str(nbig), str(nslow)], timeout=2400)  # = cut_args below
     cuts = parse_jsonl(p.stdout)
     if p.returncode != 0 or not cuts:
         raise vlib.ToolError("proxy cuts failed rc=%s: %s" % (p.returncode, p.stderr[-1500:]))
-    cut_args = ["cuts", "300", "32", str(stall_mod), str(nseeds), str(nbig)]
+    cut_args = ["cuts", "300", "32", str(stall_mod), str(nseeds), str(nbig), str(nslow)]
     for name, recs in (("byte-cuts", cuts), ("replayed-behaviours", observations)):
         checked, nontrivial, rejected = _validate_trace(ctx, name, recs, work)
         by_id = {r["id"]: r for r in recs}
